@@ -344,6 +344,8 @@ class number_converters_base(_check_value_base):
             kwds.append("value_max=" + self._value_as_str(value=self.value_max))
         if self.allow_none:
             kwds.append("allow_none=True")
+        else:
+            kwds.append("allow_none=False")
         if len(kwds) != 0:
             return self.phil_type + "(" + ", ".join(kwds) + ")"
         return self.phil_type
